@@ -6,6 +6,7 @@ from spec.common import pct_decode
 
 _CTRL = re.compile("[\x00-\x1f\x7f-\x9f]")
 _PROTO = re.compile(r"^[a-zA-Z]{0,64}:?//")
+_BRACKETED = re.compile(r"^(?:[^\[\]]*@)?\[[^\[\]]*\](?::[0-9]*)?$")
 DEFAULT_PORTS = {"http": 80, "https": 443}
 
 
@@ -27,6 +28,8 @@ def parse(u, default_protocol="https", cleaning=True):
         u = clean(u, default_protocol)
     try:
         parts = urlsplit(u)
+        if cleaning and ("[" in parts.netloc or "]" in parts.netloc) and not _BRACKETED.match(parts.netloc):
+            return None       # stray brackets outside one well-formed [literal]: not a url
         return parts, parts.username, parts.password, parts.hostname, parts.port
     except ValueError:
         return None
